@@ -606,6 +606,9 @@ func (s *Service) toProto(need func(string)) *descriptorpb.ServiceDescriptorProt
 	}
 	for _, m := range s.Methods {
 		mp := &descriptorpb.MethodDescriptorProto{Name: proto.String(m.Name), InputType: proto.String(m.Input), OutputType: proto.String(m.Output)}
+		if m.Input == ".google.protobuf.Timestamp" || m.Output == ".google.protobuf.Timestamp" {
+			need(TimestampProto)
+		}
 		if m.ClientStreaming {
 			mp.ClientStreaming = proto.Bool(true)
 		}
